@@ -266,7 +266,9 @@ fn synthetic_thread(cfg: BCfg, path: PathBuf, st: SharedB, world: SharedWorld, s
             let rs = r.range(5, 5000) * SEC + r.range(0, 999_999_999);
             let span: i64 = *r.pick(&[5 * SEC, 5 * SEC + 1, 6 * SEC, 1000 * SEC, 1000 * SEC, rs]);
             // age = mono - as_of
-            let age: i64 = match r.below(14) {
+            let age: i64 = match r.below(15) {
+                // just past the wrap-around points of narrow time representations (u32/i32 us, u16 s, u32/i32 ms)
+                14 => *r.pick(&[4_294_967_296_000i64, 2_147_483_648_000, 65_536 * SEC, 4_294_967_296_000_000, 2_147_483_648_000_000, 16_777_216 * SEC]) + *r.pick(&[0i64, 1, 999_999_999, 2 * SEC, 4 * SEC + 999_999_999, 6 * SEC, 400 * SEC]),
                 0 => 0,
                 1 => *r.pick(&[1i64, 999, 1000, 1001, 2000]),
                 2 => -*r.pick(&[1i64, 500, 999, 1000, 1001, 2000, 1_000_000, 10_000_001, 4 * SEC]),
@@ -280,6 +282,10 @@ fn synthetic_thread(cfg: BCfg, path: PathBuf, st: SharedB, world: SharedWorld, s
                 10 => -r.range(1, 2_000),
                 _ => r.range(0, 2_000 * SEC),
             };
+            // with clocks that advance on every read: put the edge of the causality blur between two
+            // consecutive monotonic readings of one of the calls that follow
+            let cost = cfg.clock_read_cost_ns;
+            let age = if cost > 0 && tick == 1 && r.chance(40) { -(1000 + r.range(1, 9) * cost + 1 + r.below(cost as u64) as i64) } else { age };
             let age = if before_second > 0 && r.chance(60) { -(before_second + *r.pick(&[1i64, 1, 300])).min(999).max(before_second + 1) } else { age };
             let as_of = mono as i128 - age as i128;
             let void = as_of + span as i128;
@@ -342,7 +348,8 @@ fn synthetic_thread(cfg: BCfg, path: PathBuf, st: SharedB, world: SharedWorld, s
             }
             // C17: all client libraries agree on the same segment at the same (frozen) instant
             let first = results[0].1.clone();
-            for (k, res) in &results[1..] {
+            // (only meaningful when the three calls saw the same instant)
+            for (k, res) in results[1..].iter().filter(|_| cost == 0) {
                 let mut s = st.lock().unwrap();
                 s.out.probe("judged.cross_library_comparisons");
                 s.out.nontrivial.insert("C17");
@@ -470,10 +477,12 @@ pub fn run(cfg: &BCfg, run_seed: u64, replay: Option<Vec<u32>>, trace: bool, san
         clock_lag_ppm: cfg.clock_lag_ppm,
         clock_lag_max_ns: cfg.clock_lag_max_ns,
         clock_fail_ppm: cfg.clock_fail_ppm,
+        clock_read_cost_ns: cfg.clock_read_cost_ns,
         faults,
         hash_seed: cfg.hash_seed,
         sandbox: sandbox.to_path_buf(),
         trace,
+        preempts: Vec::new(),
     };
     let phc = if cfg.phc != 0 { Some(clock_bound_d::PhcInfo { refid: PHC_REFID, sysfs_error_bound_path: world.lock().unwrap().phc_path.clone() }) } else { None };
     let mut procs = Vec::new();
